@@ -640,16 +640,20 @@ func privateCallSites(h *ssa.Function) []ssa.CallInstruction {
 // Anything else can end the inner iteration early without an error: a
 // silently shortened listing.
 func checkFilterCallbackReturns(c *core.Ctx, rule, key string, fn *ssa.Function) {
-	for _, f := range facts.WithAnon(fn) {
-		if f == fn || f.Signature.Params().Len() != 2 || f.Signature.Results().Len() != 1 {
-			continue
+	isBoolRes := func(f *ssa.Function) bool {
+		if f.Signature.Results().Len() != 1 {
+			return false
 		}
-		if f.Signature.Params().At(1).Type().String() != "error" {
-			continue
+		b, ok := f.Signature.Results().At(0).Type().Underlying().(*types.Basic)
+		return ok && b.Kind() == types.Bool
+	}
+	seen := map[*ssa.Function]bool{}
+	var checkBody func(f *ssa.Function, depth int)
+	checkBody = func(f *ssa.Function, depth int) {
+		if seen[f] {
+			return
 		}
-		if b, ok := f.Signature.Results().At(0).Type().Underlying().(*types.Basic); !ok || b.Kind() != types.Bool {
-			continue
-		}
+		seen[f] = true
 		for _, r := range returnsOf(f) {
 			v := facts.Resolve(r.Results[0])
 			ok := false
@@ -684,6 +688,11 @@ func checkFilterCallbackReturns(c *core.Ctx, rule, key string, fn *ssa.Function)
 			case *ssa.Call:
 				if _, isY := isYieldCall(x); isY {
 					ok = true
+				} else if h := x.Call.StaticCallee(); h != nil && h.Blocks != nil && depth > 0 && isBoolRes(h) && len(privateCallSites(h)) > 0 {
+					// the decision is delegated to a private helper: it is held to the same rule
+					c.Analysed(facts.FuncName(h))
+					checkBody(h, depth-1)
+					ok = true
 				}
 			case *ssa.Phi:
 				// e.g. `ok := yield(...); if ok {...}; return ok`
@@ -701,8 +710,21 @@ func checkFilterCallbackReturns(c *core.Ctx, rule, key string, fn *ssa.Function)
 					ok = false
 				}
 			}
-			c.Check(ok, rule, key+"/callback-return", r.Pos(), "callback continues, propagates the consumer's decision, or stops after delivering an error", why)
+			k := key + "/callback-return"
+			if f.Parent() == nil {
+				k = key + "/callback-return/in " + facts.FuncName(f)
+			}
+			c.Check(ok, rule, k, r.Pos(), "callback continues, propagates the consumer's decision, or stops after delivering an error", why)
 		}
+	}
+	for _, f := range facts.WithAnon(fn) {
+		if f == fn || f.Signature.Params().Len() != 2 || !isBoolRes(f) {
+			continue
+		}
+		if f.Signature.Params().At(1).Type().String() != "error" {
+			continue
+		}
+		checkBody(f, 2)
 	}
 }
 
@@ -820,4 +842,115 @@ func withHelpers(fn *ssa.Function) []*ssa.Function {
 		out = append(out, facts.WithAnon(h)...)
 	}
 	return out
+}
+
+// vret is one way a function can return: the returned values, and the branch
+// conditions known when they are returned. A `return x` whose x is a phi of the
+// returning block (`err := f(); if err == nil { err = g() }; return err`) is
+// split into one vret per incoming edge.
+type vret struct {
+	Ret   *ssa.Return
+	Vals  []ssa.Value
+	Conds []facts.Cond
+	// NonNil: values known non-nil when returned (from the conditions, with a
+	// test of a phi credited to the incoming value this vret stands for)
+	NonNil map[ssa.Value]bool
+}
+
+func (v *vret) nonNil(x ssa.Value) bool {
+	x = facts.Resolve(x)
+	if v.NonNil[x] {
+		return true
+	}
+	for _, cd := range v.Conds {
+		if y, isNil, ok := facts.NilCheck(cd); ok && !isNil && facts.Resolve(y) == x {
+			return true
+		}
+	}
+	return false
+}
+
+func virtualReturns(fn *ssa.Function) []vret {
+	var out []vret
+	for _, r := range returnsOf(fn) {
+		b := r.Block()
+		var phis []*ssa.Phi
+		for i := range r.Results {
+			if ph, ok := facts.RetVal(r, i).(*ssa.Phi); ok && ph.Block() == b {
+				phis = append(phis, ph)
+			}
+		}
+		if len(phis) == 0 {
+			vals := make([]ssa.Value, len(r.Results))
+			for i := range r.Results {
+				vals[i] = facts.RetVal(r, i)
+			}
+			// an error result that is a phi of an EARLIER block (`err := f(); if err == nil
+			// { err = g() }; if err != nil { return zero, err }`): one vret per incoming
+			// value, a `phi != nil` test at the return counting for that value
+			n := len(vals)
+			if ph, ok := vals[n-1].(*ssa.Phi); ok && n > 0 && vals[n-1].Type().String() == "error" {
+				phiNonNil := false
+				for _, cd := range facts.CondsAt(b) {
+					if y, isNil, ok := facts.NilCheck(cd); ok && !isNil && y == ssa.Value(ph) {
+						phiNonNil = true
+					}
+				}
+				for pi, pred := range ph.Block().Preds {
+					vs := append([]ssa.Value{}, vals...)
+					vs[n-1] = facts.Resolve(ph.Edges[pi])
+					conds := append([]facts.Cond{}, facts.CondsAt(pred)...)
+					for si, s := range pred.Succs {
+						if s == ph.Block() {
+							conds = append(conds, facts.EdgeConds(pred, si)...)
+						}
+					}
+					vr := vret{Ret: r, Vals: vs, Conds: conds, NonNil: map[ssa.Value]bool{}}
+					if phiNonNil {
+						vr.NonNil[vs[n-1]] = true
+					}
+					out = append(out, vr)
+				}
+				continue
+			}
+			out = append(out, vret{Ret: r, Vals: vals, Conds: facts.CondsAt(b)})
+			continue
+		}
+		for pi, pred := range b.Preds {
+			vals := make([]ssa.Value, len(r.Results))
+			for i := range r.Results {
+				v := facts.RetVal(r, i)
+				if ph, ok := v.(*ssa.Phi); ok && ph.Block() == b {
+					v = facts.Resolve(ph.Edges[pi])
+				}
+				vals[i] = v
+			}
+			conds := append([]facts.Cond{}, facts.CondsAt(pred)...)
+			for si, s := range pred.Succs {
+				if s == b {
+					conds = append(conds, facts.EdgeConds(pred, si)...)
+				}
+			}
+			out = append(out, vret{Ret: r, Vals: vals, Conds: conds})
+		}
+	}
+	return out
+}
+
+// valsFromCall: the returned values are exactly the results of call, in order.
+func valsFromCall(vals []ssa.Value, call *ssa.Call) bool {
+	n := call.Call.Signature().Results().Len()
+	if len(vals) != n {
+		return false
+	}
+	if n == 1 {
+		return facts.Resolve(vals[0]) == ssa.Value(call)
+	}
+	for i, v := range vals {
+		e, ok := facts.Resolve(v).(*ssa.Extract)
+		if !ok || e.Tuple != ssa.Value(call) || e.Index != i {
+			return false
+		}
+	}
+	return true
 }
